@@ -1328,9 +1328,9 @@ Theorem copy_same_function_of_content {X} (render : ctree -> X) fuel st t st' t'
 Proof. intros (_ & P2 & _). now rewrite P2. Qed.
 
 (* ---- pickling a document ---- *)
-Theorem unpickle_is_reparse {B O M T} (render : T -> M) (feed : B -> O -> M -> T) (d : document B O T) :
-  setstate B O M T feed (getstate B O M T render d) =
-  mkdoc B O T (d_builder _ _ _ d) (d_other _ _ _ d) (feed (d_builder _ _ _ d) (d_other _ _ _ d) (render (d_tree _ _ _ d))).
+Theorem unpickle_is_reparse {B O M T T'} (render : T -> M) (feed : B -> O -> M -> T') (d : document B O T) :
+  setstate feed (getstate render d) =
+  mkdoc (d_builder d) (d_other d) (feed (d_builder d) (d_other d) (render (d_tree d))).
 Proof. reflexivity. Qed.
 
 (* ------------------------------------------------------------------------------------------ *)
